@@ -9,7 +9,7 @@ RULE = ("Design model: Batching.tla (Enter / CheckArgs / Clamp / Batch / Concat)
         "incl. a mis-sized one: windows non-empty, <= b, consecutive, partition 0..n-1, eval mode and no autograd inside the loop, "
         "termination. Binding: a recording exact-integer model (row ids encoded in the one-hot input, arg ids in the args, "
         "contains Dropout/BatchNorm, returns tensor/tuple/list) logs every forward; Batching_Trace replays every recorded call "
-        "through the model's actions for every n in 1..N x b in 1..n+3 x 0-3 args x 3 output kinds, plus mis-sized args. "
+        "through the model's actions for every n in 1..N x b in 1..n+3 x 0-3 args x 4 output kinds (tensor, tuple, list, one-element tuple), plus mis-sized args. "
         "distinct_nontrivial = calls whose batch size does not divide n or exceeds it, or that carry extra args.")
 EXHAUSTIVE = True
 
@@ -22,7 +22,7 @@ def run(ctx):
     cid = 1
     for n in range(1, N + 1):
         for b in range(1, n + 4):
-            for kind in ("tensor", "tuple", "list"):
+            for kind in ("tensor", "tuple", "list", "tuple1"):
                 nargs = rng.randint(0, 3) if not (n <= 6) else (cid % 4)
                 calls.append((cid, n, b, nargs, 0, kind, rng.randrange(6))); cid += 1
                 if b % n != 0 or b > n or nargs:
